@@ -275,10 +275,12 @@ where
                 }
             }
 
-            // Skip if outside boundary.
+            // Only an initial state can be outside the boundary here (successors outside the
+            // boundary are never stepped into). Such a state is not part of the state space, so
+            // there is no path to report.
             if !model.within_boundary(&state) {
                 log::trace!("Found state outside of boundary");
-                break;
+                return;
             }
 
             // add the current fingerprint to the path
@@ -381,6 +383,12 @@ where
                         log::trace!("No next state");
                     }
                     Some(next_state) => {
+                        if !model.within_boundary(&next_state) {
+                            // a successor outside the boundary does not extend the path (as in
+                            // the exhaustive checkers), try and choose another
+                            log::trace!("Next state outside of boundary");
+                            continue;
+                        }
                         // now clear the actions for the next round
                         actions.clear();
                         state = next_state;
